@@ -244,11 +244,16 @@ def _conc_iter(I, v):
         raise Unsupported("symbolic range used as a concrete iterable")
     if v.tag == "fn" and v.kind == "iter":
         return list(v.items)
+    if v.tag == "fn" and v.kind == "enum_live":
+        return [VTuple([VInt(v.start + i), x]) for i, x in enumerate(I.container(v.ref).items)]
     return I.iter_conc(v)
 
 
 def b_enumerate(I, args, kw):
     start = I.pyconst(I.force(_arg(args, kw, 1, "start", VInt(0))))
+    a0 = I.force(args[0])
+    if a0.tag == "list" and isinstance(I.container(a0.ref), LConc):
+        return VFn("enum_live", ref=a0.ref, start=start)     # live, index-based iteration (see Interp.s_For)
     items = _conc_iter(I, args[0])
     return VFn("iter", items=[VTuple([VInt(start + i), x]) for i, x in enumerate(items)])
 
